@@ -28,6 +28,20 @@ def run(ctx):
     try:
         sim = BuilderSim(ctx, root_kind="module", features=feats, max_steps=15 + ch.draw(50, "max-steps"))
         ctx.profile = {"root": "module", **feats}
+
+        def mid_export(sim):
+            # export at quiescent points of the history as well (the exporter must not remember anything)
+            from ..engines.b_builders import Actor, ModuleCtl
+            if any((isinstance(a, Actor) and not a.closed) or (not isinstance(a, (Actor, ModuleCtl)) and not a.closed) for a in sim.actors):
+                return
+            if len(sim.hugr) > 3 and ch.coin(1, 6, "mid-history-export"):
+                try:
+                    sim.hugr.to_model()
+                    ctx.probe("exported_mid_history")
+                    ctx.ev("query", "to_model")
+                except Exception:  # noqa: BLE001  judged at the end on the complete module
+                    pass
+        sim.after_step = mid_export
         sim.run()
     except Discard as d:
         ctx.discard = str(d)
